@@ -282,7 +282,7 @@ func expectedReplay(sc *jScenario, v *joeView, st *jSubTrace, reg regRec) (want 
 			buf = before
 		}
 	case "valid":
-		ttl := time.Hour
+		ttl := 1000 * time.Hour
 		if sc.ValidTTL > 0 {
 			ttl = time.Duration(sc.ValidTTL)
 		}
